@@ -1228,10 +1228,37 @@ def _mark_consumed(raw):
             b["consumed"] = True
 
 
+def canonical_free_fn_paths(raw):
+    """A free function the rules know by path (parse_volume, solve_mode_variant, crc7, crc16) that was moved to another module
+    keeps its known path in the facts: when the known path is absent and exactly one free function of that name exists
+    elsewhere in the crate, its path is rewritten everywhere (definition, callers, its closures).  Methods need nothing: their
+    path is their type's."""
+    import json as _json
+    known = [p for p in _known() if not p.startswith("<") and "{" not in p and not any(seg[:1].isupper() for seg in p.split("::")[:-1])]
+    present = {strip_generics(b["path"]): b for b in raw["bodies"] if b["kind"] == "Fn"}
+    moved = {}
+    for kp in known:
+        if kp in present or "::test" in kp:
+            continue
+        name = kp.split("::")[-1]
+        cands = [p for p in present if p.split("::")[-1] == name and p not in known and "::test" not in p]
+        if len(cands) == 1 and present[cands[0]]["path"] == cands[0]:
+            moved[cands[0]] = kp
+    if not moved:
+        return {}
+    txt = _json.dumps(raw["bodies"])
+    for new_, old_ in moved.items():
+        txt = txt.replace(new_, old_)
+    raw["bodies"] = _json.loads(txt)
+    raw["_moved_functions"] = moved
+    return moved
+
+
 def lower_adaptors(raw):
     """Rewrite raw["bodies"] in place (idempotent: a lowered call is no longer a call).  -> number of call sites lowered"""
     if raw.get("_lowered"):
         return 0
+    canonical_free_fn_paths(raw)
     closures = {strip_generics(b["path"]): b for b in raw["bodies"] if b["kind"] == "Closure"}
     n = 0
     _INLINED.clear()
